@@ -689,6 +689,79 @@ def consistency_probe(S, case, workdir):
     return out
 
 
+def big_probes(S, rng_seed=0):
+    """Requests of a size the model is not evaluated on (the correspondence uses small grids): used ONLY when a proof
+    obligation or the correspondence is already broken, to find a concrete failing input for changes that switch on above
+    a size threshold (block-wise transforms, per-thread splits of the mode vector, memory budgets).  Each probe compares
+    two answers of the implementation that the property requires to agree: slot k of a long level list vs the
+    single-level request; several numerical threads vs one.  Returns [(signature, detail, replay)]."""
+    import bldfm.config as bcfg
+    out = []
+    rs = np.random.RandomState(12345 + rng_seed)
+
+    def const_case(nx, ny, nz, levels, footprint, analytic, halo, modes):
+        z = 0.1 + 2.0 * np.linspace(0.0, 1.0, nz) ** 1.5
+        prof = (np.full(nz, 1.5), np.full(nz, 0.5), np.full(nz, 1.0), np.full(nz, 0.75), np.full(nz, 0.5))
+        q0 = rs.randint(0, 9, size=(ny, nx)) / 8.0
+        return dict(q0=q0, z=z, profiles=prof, domain=(float(4 * nx), float(4 * ny)), levels=levels, modes=modes,
+                    meas_pt=(float(4 * (nx // 3)), float(4 * (ny // 2))), bg=0.5, footprint=footprint, analytic=analytic,
+                    halo=halo, precision="double")
+
+    # (1) long level lists on large padded grids: every slot must be the single-level answer (last, first and a middle slot)
+    for nx, ny, nlv, halo, fp in ((256, 256, 70, 0.0, True), (64, 64, 105, None, False), (96, 80, 59, 0.0, False)):
+        try:
+            nz = max(nlv, 8)
+            levels = list(range(nz))[:nlv] if nlv <= nz else list(range(nz))
+            if nlv == 59:
+                levels = [int(v) for v in rs.permutation(nz)[:nlv]]
+            case = const_case(nx, ny, nz, levels, fp, True, halo, (2 * nx, 2 * ny))
+            got = run_impl(S, case)
+            if got["err"] != 0:
+                continue
+            for k in (len(levels) - 1, 0, len(levels) // 2, len(levels) - 2):
+                one = dict(case, levels=[levels[k]])
+                r1 = run_impl(S, one)
+                if r1["err"] != 0:
+                    continue
+                dc, df = _dev(got["conc"][k], r1["conc"][0]), _dev(got["flx"][k], r1["flx"][0])
+                if dc > 1e-9 or df > 1e-9:
+                    out.append(("consistency:large-request-slot-differs-from-single-level-request",
+                                "%dx%d cells, halo %r, %d levels (analytic, %s): slot %d differs from the single-level request for node %d (rel dev conc %.3g, flx %.3g; max|slot| = %.3g)"
+                                % (nx, ny, halo, len(levels), "footprint" if fp else "dispersion", k, levels[k], dc, df, float(np.max(np.abs(got["flx"][k])))),
+                                {"big": {"nx": nx, "ny": ny, "nlevels": len(levels), "halo": halo, "footprint": fp, "slot": k}}))
+                    break
+        except MemoryError:
+            continue
+        except Exception as e:  # noqa: BLE001
+            out.append(("consistency:large-request-raises", "%dx%d cells, %d levels: %s: %s" % (nx, ny, nlv, type(e).__name__, e), {"big": {"nx": nx, "ny": ny, "nlevels": nlv}}))
+    # (2) numerical threads on mode vectors that do not split evenly
+    for nx, ny in ((40, 32), (30, 18)):
+        try:
+            nz = 6
+            z = 0.1 + 1.0 * np.linspace(0.0, 1.0, nz)
+            s_ = np.linspace(0.3, 1.0, nz)
+            prof = (1.5 * s_, 0.5 * s_, 0.4 + 0.6 * s_, 0.3 + 0.5 * s_, 0.2 + 0.6 * s_)
+            case = dict(q0=rs.randint(0, 9, size=(ny, nx)) / 8.0, z=z, profiles=prof, domain=(float(4 * nx), float(4 * ny)), levels=[nz - 1, 2],
+                        modes=(nx, ny), meas_pt=(8.0, 12.0), bg=0.0, footprint=False, analytic=False, halo=0.0, precision="double")
+            ref = run_impl(S, case)
+            if ref["err"] != 0:
+                continue
+            for thr in (2, 3, 4, 6):
+                got = run_impl(S, dict(case, _threads=thr))
+                if got["err"] != ref["err"]:
+                    out.append(("state:outcome-depends-on-thread-setting", "%d threads: %s" % (thr, ERR.get(got["err"], "fails")), {"big": {"nx": nx, "ny": ny, "threads": thr}}))
+                    break
+                dc, df = _dev(got["conc"], ref["conc"]), _dev(got["flx"], ref["flx"])
+                if dc > 1e-9 or df > 1e-9:
+                    out.append(("state:result-depends-on-thread-setting",
+                                "%dx%d cells, all modes, numerical branch: config.NUM_THREADS = %d gives other fields than 1 thread (rel dev conc %.3g, flx %.3g)" % (nx, ny, thr, dc, df),
+                                {"big": {"nx": nx, "ny": ny, "threads": thr}}))
+                    break
+        except Exception as e:  # noqa: BLE001
+            out.append(("state:threaded-solve-raises", "%s: %s" % (type(e).__name__, e), {"big": {"nx": nx, "ny": ny}}))
+    return out
+
+
 def stress_oracle(ctx, hints):
     out, seen = [], set()
     for h in hints:
@@ -718,11 +791,27 @@ def stress_oracle(ctx, hints):
                                 "replay": {"case": h["case"], "stress": {"kind": "consistency"}}})
         except Exception:
             continue
+    if not out and getattr(ctx, "failures", None):
+        # nothing concrete on the small requests: try the large canonical requests (size / thread thresholds)
+        try:
+            for sig, detail, rep in big_probes(S):
+                if sig not in seen:
+                    seen.add(sig)
+                    out.append({"signature": sig, "what": "%s: %s" % (ctx.prop, detail), "replay": {"stress": {"kind": "big"}, **rep}})
+        except Exception:
+            pass
     return out
 
 
 def stress_replay(body):
     import tempfile
+    if body.get("stress", {}).get("kind") == "big":
+        hits = big_probes(impl())
+        for sig, detail, rep in hits:
+            print("FAILS", sig, detail)
+        if not hits:
+            print("holds on the large canonical requests")
+        return 1 if hits else 0
     r = stress_probe(body, tempfile.mkdtemp(prefix="replay_", dir=os.path.join(core.VERIF, "build")))
     if r:
         print("FAILS", r[0], r[1])
